@@ -149,3 +149,130 @@ theorem inv_run (es : List PEv) (s0 s : PState) (hf : faithful es = true) (h0 : 
       exact ih s1 hf.2 ⟨inv_step s0 s1 e hf.1 h0.1 hs, dangling_step s0 s1 e hf.1 h0.2 hs⟩ hr
 
 end KV.Model.Pool
+
+namespace KV.Model.CfgPool
+
+theorem takeKey_spec (key : Nat) (pool : List (Nat × Obj)) (o : Obj) (rest : List (Nat × Obj))
+    (h : takeKey key pool = some (o, rest)) : (key, o) ∈ pool ∧ ∀ e ∈ rest, e ∈ pool := by
+  induction pool generalizing o rest with
+  | nil => simp [takeKey] at h
+  | cons x xs ih =>
+    obtain ⟨k, ob⟩ := x
+    simp only [takeKey] at h
+    by_cases hk : k = key
+    · simp only [hk, if_true, Option.some.injEq, Prod.mk.injEq] at h
+      obtain ⟨h1, h2⟩ := h
+      subst h1; subst h2; subst hk
+      exact ⟨by simp, fun e he => by simp [he]⟩
+    · simp only [hk, if_false] at h
+      cases ht : takeKey key xs with
+      | none => simp [ht] at h
+      | some p =>
+        obtain ⟨o', rest'⟩ := p
+        simp only [ht, Option.some.injEq, Prod.mk.injEq] at h
+        obtain ⟨h1, h2⟩ := h
+        subst h1; subst h2
+        have := ih o' rest' ht
+        refine ⟨by simp [this.1], fun e he => ?_⟩
+        simp only [List.mem_cons] at he ⊢
+        rcases he with he | he
+        · exact Or.inl he
+        · exact Or.inr (this.2 e he)
+
+theorem inv_init (rp : Nat → Bool) : Inv rp init := by simp [Inv, init]
+
+theorem inv_step (rp : Nat → Bool) (s s' : St) (e : Ev) (hp : policyEv rp e = true) (hi : Inv rp s)
+    (h : step s e = some s') : Inv rp s' := by
+  obtain ⟨hh, hpool⟩ := hi
+  cases e with
+  | acquire key cfg reuse reapply =>
+    simp only [policyEv, Bool.and_eq_true, beq_iff_eq, Bool.or_eq_true] at hp
+    obtain ⟨hre, hkc⟩ := hp
+    simp only [step] at h
+    cases hf : (if reuse = true then takeKey key s.pool else none) with
+    | none =>
+      simp only [hf, Option.some.injEq] at h; subst h
+      refine ⟨?_, hpool⟩
+      intro hd hm
+      simp only [List.mem_append, List.mem_singleton] at hm
+      rcases hm with hm | hm
+      · exact hh hd hm
+      · subst hm
+        refine ⟨rfl, fun hrf => ?_⟩
+        rcases hkc with hk | hk
+        · simp [hrf] at hk
+        · exact hk.symm
+    | some p =>
+      obtain ⟨o, rest⟩ := p
+      simp only [hf, Option.some.injEq] at h; subst h
+      have hreuse : takeKey key s.pool = some (o, rest) := by
+        by_cases hr : reuse = true
+        · simpa [hr] using hf
+        · simp [hr] at hf
+      have hts := takeKey_spec key s.pool o rest hreuse
+      refine ⟨?_, fun e he => hpool e (hts.2 e he)⟩
+      intro hd hm
+      simp only [List.mem_append, List.mem_singleton] at hm
+      rcases hm with hm | hm
+      · exact hh hd hm
+      · subst hm
+        by_cases hra : reapply = true
+        · simp only [hra, if_true]
+          refine ⟨trivial, fun hrf => ?_⟩
+          rw [hra] at hre
+          simp [← hre] at hrf
+        · have hrf : rp key = false := by
+            have : reapply = false := by simpa using hra
+            rw [this] at hre; exact hre.symm
+          have hk : key = cfg := by
+            rcases hkc with hk | hk
+            · simp [hrf] at hk
+            · exact hk
+          simp only [hra]
+          have := hpool (key, o) hts.1 hrf
+          simp only at this
+          exact ⟨by simp [this, hk], fun _ => hk.symm⟩
+  | close hx =>
+    simp only [step] at h
+    cases hg : s.handles[hx]? with
+    | none => simp [hg] at h
+    | some hd =>
+      simp only [hg, Option.some.injEq] at h; subst h
+      have hmem : hd ∈ s.handles := List.mem_of_getElem? hg
+      refine ⟨fun x hxm => hh x ((List.eraseIdx_sublist s.handles hx).subset hxm), ?_⟩
+      intro e he hrf
+      simp only [List.mem_cons] at he
+      rcases he with he | he
+      · subst he
+        have := hh hd hmem
+        simp only at hrf ⊢
+        rw [this.1, this.2 hrf]
+      · exact hpool e he hrf
+
+theorem inv_run (rp : Nat → Bool) (es : List Ev) (s0 s : St) (hp : policy rp es = true) (h0 : Inv rp s0)
+    (hr : run s0 es = some s) : Inv rp s := by
+  induction es generalizing s0 with
+  | nil => simp [run] at hr; subst hr; exact h0
+  | cons e es ih =>
+    simp only [run] at hr
+    cases hs : step s0 e with
+    | none => simp [hs] at hr
+    | some s1 =>
+      simp only [hs] at hr
+      simp only [policy, List.all_cons, Bool.and_eq_true] at hp
+      exact ih s1 hp.2 (inv_step rp s0 s1 e hp.1 h0 hs) hr
+
+end KV.Model.CfgPool
+
+namespace KV.Model.LibWrapper
+
+theorem cfg_after {σ ι ω : Type} (L : Lib σ ι ω) (cfgOf : σ → Nat) (h : ResetContract L cfgOf) (s : σ) (hist : List ι) :
+    cfgOf (after L s hist) = cfgOf s := by
+  induction hist generalizing s with
+  | nil => rfl
+  | cons i is ih =>
+    simp only [after, List.foldl_cons] at ih ⊢
+    rw [ih (useOnce L s i)]
+    simp only [useOnce, h.cfg_reset, h.cfg_run]
+
+end KV.Model.LibWrapper
